@@ -4,7 +4,7 @@
    - a response is a flag byte followed by an error or the object; an error is delivered as that error.
    Together with Size.enc_size and the per-object obligations at the end (re-checked on every run against the
    regenerated shapes and the implementation's own maxLen() values), every object within the protocol's batch
-   limits is admitted by the limit the receiver applies to it. *)
+   limits is accepted by the limit the receiver applies to it. *)
 From Coq Require Import String.
 From Coq Require Import List NArith Lia Bool PeanoNat ZifyN ZifyNat.
 From Sia Require Import Prim.Tok Codec.Schema Codec.Shape Codec.Irregular Codec.Size Gen.Schemas Gen.Limits.
@@ -25,7 +25,7 @@ Definition read_limited (maxLen : nat) (s : schema) (stream : bytes) : option (v
 Lemma firstn_app_le {A} n (a b : list A) : length a <= n -> firstn n (a ++ b) = a ++ firstn (n - length a) b.
 Proof. intros L. rewrite firstn_app. rewrite firstn_all2 by exact L. reflexivity. Qed.
 
-Theorem frame_admits maxLen s v rest : wf s -> wt rvalid s v -> length (enc s v) <= maxLen ->
+Theorem frame_accepts maxLen s v rest : wf s -> wt rvalid s v -> length (enc s v) <= maxLen ->
   read_limited maxLen s (enc s v ++ rest) = Some (v, firstn (maxLen - length (enc s v)) rest).
 Proof.
   intros Wf Wt L. unfold read_limited. rewrite firstn_app_le by exact L.
@@ -69,12 +69,12 @@ Proof.
   intros We Wo Wt L. eexists. apply (response_delivered limit se so (inl e)); auto.
 Qed.
 
-(* size bound + limit: admitted *)
-Corollary sized_admitted maxLen s b v rest : wf s -> wt rvalid s v -> within s b v ->
+(* size bound + limit: accepted *)
+Corollary sized_accepted maxLen s b v rest : wf s -> wt rvalid s v -> within s b v ->
   (maxsize s b <= N.of_nat maxLen)%N ->
   read_limited maxLen s (enc s v ++ rest) = Some (v, firstn (maxLen - length (enc s v)) rest).
 Proof.
-  intros Wf Wt Wi M. apply frame_admits; auto.
+  intros Wf Wt Wi M. apply frame_accepts; auto.
   pose proof (enc_size rvalid s b v Wt Wi) as E. unfold len in E. lia.
 Qed.
 End Framing.
@@ -134,7 +134,7 @@ Definition check_obj (x : string * list N) : bool :=
   end.
 Definition failing_objects : list string := map fst (filter (fun x => negb (check_obj x)) rpc_limits).
 
-Lemma limits_admit_all : failing_objects = [].
+Lemma limits_accept_all : failing_objects = [].
 Proof. vm_compute. reflexivity. Qed.
 
 (* an error whose description has at most ERRDESC bytes fits the limit of every response *)
